@@ -20,7 +20,7 @@ func (c07) Cases(c *Ctx) int { return c.Pick(500, 12000) }
 func (c07) Gen(dt *drv.T, c *Ctx) any {
 	cs := &CheckCase{}
 	pc := ProgCfg{
-		Gen:      GenCfg{Depth: c.Pick(1, 2), RejectHeavy: chance(dt, "rejheavy", 30), SmallInts: true, Custom: true},
+		Gen:      GenCfg{Depth: c.Pick(1, 2), RejectHeavy: chance(dt, "rejheavy", 30), SmallInts: true, Custom: true, MakeFlat: true},
 		MaxStmts: 4, Repeat: true, NoSkipInSM: true, Cleanups: false, Skips: true, SigPct: 90,
 	}
 	cs.Prog = GenProg(dt, pc)
